@@ -143,13 +143,13 @@ theorem parentOf_ne_of_length {k n : Name} (hk : 2 ≤ k.length) (hn : 3 ≤ n.l
 
 /-! ## balances -/
 
-theorem bal_upsert (b : List (Addr × Int)) (a x : Addr) (v : Int) :
+theorem bal_upsert (b : List (Acct × Int)) (a x : Acct) (v : Int) :
     bal (upsert b a v) x = if x = a then v else bal b x := by
   unfold bal
   rw [alookup_upsert]
   by_cases h : x = a <;> simp [h]
 
-theorem bal_debit {b b1 : List (Addr × Int)} {a : Addr} {x : Int} (h : debit b a x = some b1) (y : Addr) :
+theorem bal_debit {b b1 : List (Acct × Int)} {a : Acct} {x : Int} (h : debit b a x = some b1) (y : Acct) :
     bal b1 y = bal b y - (if y = a then x else 0) ∧ x ≤ bal b a := by
   unfold debit at h
   split at h
@@ -160,7 +160,7 @@ theorem bal_debit {b b1 : List (Addr × Int)} {a : Addr} {x : Int} (h : debit b 
     · subst hy; simp; omega
     · simp [hy]; omega
 
-theorem bal_credit (b : List (Addr × Int)) (a : Addr) (x : Int) (y : Addr) :
+theorem bal_credit (b : List (Acct × Int)) (a : Acct) (x : Int) (y : Acct) :
     bal (credit b a x) y = bal b y + (if y = a then x else 0) := by
   unfold credit
   rw [bal_upsert]
@@ -170,10 +170,10 @@ theorem bal_credit (b : List (Addr × Int)) (a : Addr) (x : Int) (y : Addr) :
 
 /-! ## what a successful handler did (one lemma per `run*`) -/
 
-theorem runCreate_ok {env : Env} {s s' : St} {o b : Addr} {n : Name} {u : String} {uo : Bool} {p : Int}
-    (h : runCreate env s o b n u uo p = .ok s') :
+theorem runCreate_ok {env : Env} {s s' : St} {o b : Addr} {n : Name} {u : String} {uo : Bool} {p : Int} {c : Cur}
+    (h : runCreate env s o b n u uo p c = .ok s') :
     env.opts.base < p ∧ alookup n s.recs = none ∧ validName n = true ∧ nameAllowed env.opts n = true ∧
-    debit s.bals o p = some s'.bals ∧ s'.pool = s.pool + p ∧ s'.tree = s.tree ∧
+    debit s.bals (o, c) p = some s'.bals ∧ s'.pool = s.pool + p ∧ s'.tree = s.tree ∧
     ∃ d, s'.recs = upsert s.recs n d ∧ d.owner = o ∧ d.onSale = false ∧ d.creation = env.height ∧
       (if isSub n = true then ∃ par, alookup (parentOf n) s.recs = some par ∧ par.owner = o ∧ d.expire = par.expire
        else env.opts.perBlock ≠ 0 ∧ d.expire = wrap64 (env.version + wrap64 (blocksBought p env.opts.base env.opts.perBlock))) := by
@@ -246,8 +246,8 @@ theorem runUpdate_ok {env : Env} {s s' : St} {o b : Addr} {n : Name} {a : Bool} 
   cases h
   exact ⟨d, hd, by simpa using hown, by simpa using hch, rfl, rfl, rfl, rfl⟩
 
-theorem runSale_ok {env : Env} {s s' : St} {o : Addr} {n : Name} {p : Int} {c : Bool}
-    (h : runSale env s o n p c = .ok s') :
+theorem runSale_ok {env : Env} {s s' : St} {o : Addr} {n : Name} {p : Int} {cu : Cur} {c : Bool}
+    (h : runSale env s o n p cu c = .ok s') :
     ∃ d, alookup n s.recs = some d ∧ d.owner = o ∧ isSub n = false ∧ env.opts.perBlock < p ∧
       expiredAt d env.height = false ∧ s'.tree = s.tree ∧ s'.bals = s.bals ∧ s'.pool = s.pool ∧
       ∃ d', s'.recs = upsert s.recs n d' ∧ d'.owner = d.owner ∧ d'.expire = d.expire ∧ d'.benef = d.benef ∧
@@ -278,17 +278,17 @@ theorem runSale_ok {env : Env} {s s' : St} {o : Addr} {n : Name} {p : Int} {c : 
   refine ⟨d, hd, by simpa using hown, by simpa using hsub, by omega, by simpa using hexp, rfl, rfl, rfl, _, rfl, ?_⟩
   cases c <;> simp
 
-theorem runPurchase_ok {env : Env} {s s' : St} {buyer acct : Addr} {n : Name} {off : Int}
-    (h : runPurchase env s buyer acct n off = .ok s') :
+theorem runPurchase_ok {env : Env} {s s' : St} {buyer acct : Addr} {n : Name} {off : Int} {c : Cur}
+    (h : runPurchase env s buyer acct n off c = .ok s') :
     ∃ d, alookup n s.recs = some d ∧ isSub n = false ∧ (d.onSale = true ∨ d.expire < env.version) ∧
       env.opts.perBlock ≠ 0 ∧ s'.tree = s.tree ∧
       ((env.version ≤ d.expire ∧ d.onSale = true ∧ ∃ sale b0, d.salePrice = some sale ∧ sale ≤ off ∧
-          debit s.bals buyer sale = some b0 ∧
-          debit (credit b0 d.owner sale) buyer (off - sale) = some s'.bals ∧ s'.pool = s.pool + (off - sale) ∧
+          debit s.bals (buyer, c) sale = some b0 ∧
+          debit (credit b0 (d.owner, c) sale) (buyer, c) (off - sale) = some s'.bals ∧ s'.pool = s.pool + (off - sale) ∧
           s'.recs = upsert (eraseSel (visSub s.tree n) s.recs) n
             (resetAfterSale d buyer acct (wrap64 ((off - sale) / env.opts.perBlock)) env.version))
        ∨ (¬(env.version ≤ d.expire ∧ d.onSale = true) ∧ env.opts.base ≤ off ∧
-          debit s.bals buyer off = some s'.bals ∧ s'.pool = s.pool + off ∧
+          debit s.bals (buyer, c) off = some s'.bals ∧ s'.pool = s.pool + off ∧
           s'.recs = upsert (eraseSel (visSub s.tree n) s.recs) n
             (resetAfterSale d buyer acct (wrap64 (blocksBought off env.opts.base env.opts.perBlock)) env.version))) := by
   unfold runPurchase at h
@@ -346,10 +346,10 @@ theorem runPurchase_ok {env : Env} {s s' : St} {buyer acct : Addr} {n : Name} {o
     have := hbr h1
     simp [h2] at this
 
-theorem runSend_ok {env : Env} {s s' : St} {f : Addr} {n : Name} {amt : Int}
-    (h : runSend env s f n amt = .ok s') :
+theorem runSend_ok {env : Env} {s s' : St} {f : Addr} {n : Name} {amt : Int} {c : Cur}
+    (h : runSend env s f n amt c = .ok s') :
     ∃ d b1, alookup n s.recs = some d ∧ 0 ≤ amt ∧ d.benef.isEmpty = false ∧ activeAt d env.version = true ∧
-      expiredAt d env.version = false ∧ debit s.bals f amt = some b1 ∧ s'.bals = credit b1 d.benef amt ∧
+      expiredAt d env.version = false ∧ debit s.bals (f, c) amt = some b1 ∧ s'.bals = credit b1 (d.benef, c) amt ∧
       s'.recs = s.recs ∧ s'.tree = s.tree ∧ s'.pool = s.pool := by
   unfold runSend at h
   split at h
@@ -373,13 +373,16 @@ theorem runSend_ok {env : Env} {s s' : St} {f : Addr} {n : Name} {amt : Int}
   · cases h
   rename_i b1 hb1
   cases h
-  exact ⟨d, b1, hd, by omega, by simpa using hben, by simpa using hact, by simpa using hexp, hb1, rfl, rfl, rfl, rfl⟩
+  have hamt' : 0 ≤ amt := by
+    simp only [Bool.or_eq_true, decide_eq_true_eq, not_or] at hamt
+    omega
+  exact ⟨d, b1, hd, hamt', by simpa using hben, by simpa using hact, by simpa using hexp, hb1, rfl, rfl, rfl, rfl⟩
 
-theorem runRenew_ok {env : Env} {s s' : St} {o : Addr} {n : Name} {p : Int}
-    (h : runRenew env s o n p = .ok s') :
+theorem runRenew_ok {env : Env} {s s' : St} {o : Addr} {n : Name} {p : Int} {c : Cur}
+    (h : runRenew env s o n p c = .ok s') :
     ∃ d, alookup n s.recs = some d ∧ d.owner = o ∧ isSub n = false ∧ env.opts.perBlock < p ∧
       env.opts.perBlock ≠ 0 ∧ expiredAt d env.version = false ∧
-      debit s.bals o p = some s'.bals ∧ s'.pool = s.pool + p ∧ s'.tree = s.tree ∧
+      debit s.bals (o, c) p = some s'.bals ∧ s'.pool = s.pool + p ∧ s'.tree = s.tree ∧
       s'.recs = mapSel (visSub s.tree n)
           (fun x => { x with expire := wrap64 (d.expire + wrap64 (p / env.opts.perBlock)) })
           (upsert s.recs n { d with expire := wrap64 (d.expire + wrap64 (p / env.opts.perBlock)),
@@ -443,7 +446,7 @@ theorem runDeleteSub_ok {env : Env} {s s' : St} {o : Addr} {n : Name}
     simp [hsub]
 
 theorem feeStep_ok {env : Env} {s s' : St} (h : feeStep env s = .ok s') :
-    ∃ g, env.fee = .used g ∧ debit s.bals env.payer (env.feePrice * g) = some s'.bals ∧
+    ∃ g, env.fee = .used g ∧ debit s.bals (env.payer, env.olt) (env.feePrice * g) = some s'.bals ∧
       s'.pool = s.pool + env.feePrice * g ∧ s'.recs = s.recs ∧ s'.tree = s.tree := by
   unfold feeStep at h
   split at h
@@ -456,9 +459,96 @@ theorem feeStep_ok {env : Env} {s s' : St} (h : feeStep env s = .ok s') :
   cases h
   exact ⟨g, hg, hb1, rfl, rfl, rfl⟩
 
+theorem validate_ok {env : Env} {tx : Tx} (h : validate env tx = .ok ()) :
+    env.payer = tx.signer ∧ env.sigValid = true ∧ env.minFee ≤ env.feePrice ∧ validateKind env tx = .ok () := by
+  unfold validate at h
+  split at h
+  · cases h
+  rename_i h1
+  split at h
+  · cases h
+  rename_i h2
+  split at h
+  · cases h
+  rename_i h3
+  exact ⟨by simpa using h1, by simpa using h2, by omega, h⟩
+
+theorem validateKind_ok {env : Env} {tx : Tx} (h : validateKind env tx = .ok ()) :
+    (∀ c, tx.payCur = some c → c = env.olt) ∧ ((∀ f a c, tx ≠ .send f tx.name a c) → validName tx.name = true) := by
+  cases tx with
+  | create o b n u uo p c =>
+    simp only [validateKind] at h
+    split at h
+    · cases h
+    split at h
+    · cases h
+    rename_i hv
+    split at h
+    · cases h
+    rename_i hc
+    exact ⟨fun c' hc' => by simp [Tx.payCur] at hc'; subst hc'; simpa using hc, fun _ => by simpa [Tx.name] using hv⟩
+  | update o b n a u uo =>
+    simp only [validateKind] at h
+    split at h
+    · cases h
+    split at h
+    · cases h
+    rename_i hv
+    exact ⟨fun c' hc' => by simp [Tx.payCur] at hc', fun _ => by simpa [Tx.name] using hv⟩
+  | sale o n p c ca =>
+    simp only [validateKind] at h
+    split at h
+    · cases h
+    split at h
+    · cases h
+    split at h
+    · cases h
+    rename_i hv
+    split at h
+    · cases h
+    rename_i hc
+    simp only [Bool.or_eq_true, Bool.not_eq_true', not_or] at hv
+    exact ⟨fun c' hc' => by simp [Tx.payCur] at hc'; subst hc'; simpa using hc, fun _ => by simpa [Tx.name] using hv.1⟩
+  | purchase b a n o c =>
+    simp only [validateKind] at h
+    split at h
+    · cases h
+    rename_i hc
+    split at h
+    · cases h
+    split at h
+    · cases h
+    rename_i hv
+    exact ⟨fun c' hc' => by simp [Tx.payCur] at hc'; subst hc'; simpa using hc, fun _ => by simpa [Tx.name] using hv⟩
+  | send f n a c =>
+    exact ⟨fun c' hc' => by simp [Tx.payCur] at hc', fun hne => absurd rfl (hne f a c)⟩
+  | renew o n p c =>
+    simp only [validateKind] at h
+    split at h
+    · cases h
+    split at h
+    · cases h
+    rename_i hv
+    split at h
+    · cases h
+    rename_i hc
+    simp only [Bool.or_eq_true, Bool.not_eq_true', not_or] at hv
+    exact ⟨fun c' hc' => by simp [Tx.payCur] at hc'; subst hc'; simpa using hc, fun _ => by simpa [Tx.name] using hv.1⟩
+  | deleteSub o n =>
+    simp only [validateKind] at h
+    split at h
+    · cases h
+    split at h
+    · cases h
+    rename_i hv
+    exact ⟨fun c' hc' => by simp [Tx.payCur] at hc', fun _ => by simpa [Tx.name] using hv⟩
+
 theorem step_ok {env : Env} {s s' : St} {tx : Tx} (h : step env s tx = (.ok, s')) :
-    ∃ s1, handler env s tx = .ok s1 ∧ feeStep env s1 = .ok s' := by
+    validate env tx = .ok () ∧ ∃ s1, handler env s tx = .ok s1 ∧ feeStep env s1 = .ok s' := by
   unfold step at h
+  split at h
+  · cases h
+  rename_i u hv
   split at h
   · cases h
   rename_i s1 h1
@@ -466,19 +556,22 @@ theorem step_ok {env : Env} {s s' : St} {tx : Tx} (h : step env s tx = (.ok, s')
   · cases h
   rename_i s2 h2
   cases h
-  exact ⟨s1, h1, h2⟩
+  exact ⟨hv, s1, h1, h2⟩
 
 theorem step_ok_intro {env : Env} {s : St} {tx : Tx} (h : (step env s tx).1 = .ok) :
     step env s tx = (.ok, (step env s tx).2) := by rw [← h]
 
 theorem step_fail {env : Env} {s : St} {tx : Tx} (h : (step env s tx).1 ≠ .ok) : (step env s tx).2 = s := by
   unfold step at h ⊢
-  cases h1 : handler env s tx with
+  cases hv : validate env tx with
   | error e => simp
-  | ok s1 =>
-    cases h2 : feeStep env s1 with
-    | error e => simp [h2]
-    | ok s2 => simp [h1, h2] at h
+  | ok u =>
+    cases h1 : handler env s tx with
+    | error e => simp
+    | ok s1 =>
+      cases h2 : feeStep env s1 with
+      | error e => simp [h2]
+      | ok s2 => simp [hv, h1, h2] at h
 
 /-! ## the registry invariant -/
 
@@ -553,8 +646,8 @@ theorem visSub_isSubOf {t : List Name} {r k : Name} (h : visSub t r k = true) : 
   simp [visSub] at h
   exact h.1
 
-theorem inv_create {env : Env} {s s' : St} {o b : Addr} {n : Name} {u : String} {uo : Bool} {p : Int}
-    (h : runCreate env s o b n u uo p = .ok s') (hi : RegInv s) : RegInv s' := by
+theorem inv_create {env : Env} {s s' : St} {o b : Addr} {n : Name} {u : String} {uo : Bool} {p : Int} {c : Cur}
+    (h : runCreate env s o b n u uo p c = .ok s') (hi : RegInv s) : RegInv s' := by
   obtain ⟨_, habs, hval, _, _, _, _, d, hrecs, hown, _, _, hexp⟩ := runCreate_ok h
   intro k dk hk
   rw [hrecs, alookup_upsert] at hk
@@ -580,8 +673,8 @@ theorem inv_create {env : Env} {s s' : St} {o b : Addr} {n : Name} {u : String} 
       rw [e, habs] at hq
       cases hq
 
-theorem inv_renew {env : Env} {s s' : St} {o : Addr} {n : Name} {p : Int}
-    (h : runRenew env s o n p = .ok s') (hi : RegInv s) (hc : subsCommitted s n = true) : RegInv s' := by
+theorem inv_renew {env : Env} {s s' : St} {o : Addr} {n : Name} {p : Int} {c : Cur}
+    (h : runRenew env s o n p c = .ok s') (hi : RegInv s) (hc : subsCommitted s n = true) : RegInv s' := by
   obtain ⟨d, hd, _, hsub, _, _, _, _, _, _, hrecs⟩ := runRenew_ok h
   have hvn := (hi n d hd).1
   have hn2 : n.length = 2 := length_two_of_valid_not_sub hvn hsub
@@ -627,8 +720,8 @@ theorem inv_renew {env : Env} {s s' : St} {o : Addr} {n : Name} {p : Int}
         · rw [← hk]; simp [hnv]; exact hqo
         · rw [← hk]; simp [hnv]; exact hqe
 
-theorem inv_purchase {env : Env} {s s' : St} {buyer acct : Addr} {n : Name} {off : Int}
-    (h : runPurchase env s buyer acct n off = .ok s') (hi : RegInv s) (hc : subsCommitted s n = true) : RegInv s' := by
+theorem inv_purchase {env : Env} {s s' : St} {buyer acct : Addr} {n : Name} {off : Int} {c : Cur}
+    (h : runPurchase env s buyer acct n off c = .ok s') (hi : RegInv s) (hc : subsCommitted s n = true) : RegInv s' := by
   obtain ⟨d, hd, hsub, _, _, _, hbr⟩ := runPurchase_ok h
   have hvn := (hi n d hd).1
   have hn2 : n.length = 2 := length_two_of_valid_not_sub hvn hsub
@@ -678,8 +771,8 @@ theorem inv_update {env : Env} {s s' : St} {o b : Addr} {n : Name} {a : Bool} {u
       | some x => by_cases hv : visSub s.tree n k = true <;> simp [hv]
     · rfl
 
-theorem inv_sale {env : Env} {s s' : St} {o : Addr} {n : Name} {p : Int} {c : Bool}
-    (h : runSale env s o n p c = .ok s') (hi : RegInv s) : RegInv s' := by
+theorem inv_sale {env : Env} {s s' : St} {o : Addr} {n : Name} {p : Int} {cu : Cur} {c : Bool}
+    (h : runSale env s o n p cu c = .ok s') (hi : RegInv s) : RegInv s' := by
   obtain ⟨d, hd, _, _, _, _, _, _, _, d', hrecs, ho, he, _⟩ := runSale_ok h
   refine inv_of_core (fun k => ?_) hi
   rw [hrecs, alookup_upsert]
@@ -687,8 +780,8 @@ theorem inv_sale {env : Env} {s s' : St} {o : Addr} {n : Name} {p : Int} {c : Bo
   · subst hk; simp [hd, ho, he]
   · simp [hk]
 
-theorem inv_send {env : Env} {s s' : St} {f : Addr} {n : Name} {amt : Int}
-    (h : runSend env s f n amt = .ok s') (hi : RegInv s) : RegInv s' := by
+theorem inv_send {env : Env} {s s' : St} {f : Addr} {n : Name} {amt : Int} {c : Cur}
+    (h : runSend env s f n amt c = .ok s') (hi : RegInv s) : RegInv s' := by
   obtain ⟨_, _, _, _, _, _, _, _, _, hrecs, _⟩ := runSend_ok h
   exact inv_of_core (fun k => by rw [hrecs]) hi
 
@@ -714,38 +807,42 @@ theorem inv_feeStep {env : Env} {s s' : St} (h : feeStep env s = .ok s') (hi : R
 
 theorem handler_tree {env : Env} {s s' : St} {tx : Tx} (h : handler env s tx = .ok s') : s'.tree = s.tree := by
   cases tx with
-  | create o b n u uo p => exact (runCreate_ok h).2.2.2.2.2.2.1
+  | create o b n u uo p c => exact (runCreate_ok h).2.2.2.2.2.2.1
   | update o b n a u uo => obtain ⟨_, _, _, _, ht, _⟩ := runUpdate_ok h; exact ht
-  | sale o n p c => obtain ⟨_, _, _, _, _, _, ht, _⟩ := runSale_ok h; exact ht
-  | purchase b a n o => obtain ⟨_, _, _, _, _, ht, _⟩ := runPurchase_ok h; exact ht
-  | send f n a => obtain ⟨_, _, _, _, _, _, _, _, _, _, ht, _⟩ := runSend_ok h; exact ht
-  | renew o n p => obtain ⟨_, _, _, _, _, _, _, _, _, ht, _⟩ := runRenew_ok h; exact ht
+  | sale o n p cu c => obtain ⟨_, _, _, _, _, _, ht, _⟩ := runSale_ok h; exact ht
+  | purchase b a n o c => obtain ⟨_, _, _, _, _, ht, _⟩ := runPurchase_ok h; exact ht
+  | send f n a c => obtain ⟨_, _, _, _, _, _, _, _, _, _, ht, _⟩ := runSend_ok h; exact ht
+  | renew o n p c => obtain ⟨_, _, _, _, _, _, _, _, _, ht, _⟩ := runRenew_ok h; exact ht
   | deleteSub o n => obtain ⟨_, _, _, ht, _⟩ := runDeleteSub_ok h; exact ht
 
 theorem inv_handler {env : Env} {s s' : St} {tx : Tx} (h : handler env s tx = .ok s') (hi : RegInv s)
     (hc : cascadeSees s tx = true) : RegInv s' := by
   cases tx with
-  | create o b n u uo p => exact inv_create h hi
+  | create o b n u uo p c => exact inv_create h hi
   | update o b n a u uo => exact inv_update h hi
-  | sale o n p c => exact inv_sale h hi
-  | purchase b a n o => exact inv_purchase h hi hc
-  | send f n a => exact inv_send h hi
-  | renew o n p => exact inv_renew h hi hc
+  | sale o n p cu c => exact inv_sale h hi
+  | purchase b a n o c => exact inv_purchase h hi hc
+  | send f n a c => exact inv_send h hi
+  | renew o n p c => exact inv_renew h hi hc
   | deleteSub o n => exact inv_deleteSub h hi
 
 theorem step_cases (env : Env) (s : St) (tx : Tx) :
-    (step env s tx).2 = s ∨ ∃ s1, handler env s tx = .ok s1 ∧ feeStep env s1 = .ok (step env s tx).2 := by
+    (step env s tx).2 = s ∨
+    (validate env tx = .ok () ∧ ∃ s1, handler env s tx = .ok s1 ∧ feeStep env s1 = .ok (step env s tx).2) := by
   unfold step
-  cases h1 : handler env s tx with
+  cases hv : validate env tx with
   | error e => exact Or.inl rfl
-  | ok s1 =>
-    cases h2 : feeStep env s1 with
-    | error e => exact Or.inl (by simp [h2])
-    | ok s2 => exact Or.inr ⟨s1, rfl, by simp [h2]⟩
+  | ok u =>
+    cases h1 : handler env s tx with
+    | error e => exact Or.inl rfl
+    | ok s1 =>
+      cases h2 : feeStep env s1 with
+      | error e => exact Or.inl (by simp [h2])
+      | ok s2 => exact Or.inr ⟨rfl, s1, rfl, by simp [h2]⟩
 
 theorem inv_step {env : Env} {s : St} {tx : Tx} (hi : RegInv s) (hc : cascadeSees s tx = true) :
     RegInv (step env s tx).2 := by
-  rcases step_cases env s tx with h | ⟨s1, h1, h2⟩
+  rcases step_cases env s tx with h | ⟨_, s1, h1, h2⟩
   · rw [h]; exact hi
   · exact inv_feeStep h2 (inv_handler h1 hi hc)
 
@@ -804,12 +901,12 @@ theorem histSees_of_oneTxPerBlock (evs : List Ev) : ∀ {s : St}, Clean s → on
 
 theorem auth_of_change {env : Env} {s : St} {tx : Tx} {n : Name}
     (hch : alookup n (step env s tx).2.recs ≠ alookup n s.recs) : Auth env s tx n := by
-  rcases step_cases env s tx with h | ⟨s1, h1, h2⟩
+  rcases step_cases env s tx with h | ⟨_, s1, h1, h2⟩
   · rw [h] at hch; exact absurd rfl hch
   obtain ⟨_, _, _, _, hfr, _⟩ := feeStep_ok h2
   rw [hfr] at hch
   cases tx with
-  | create o b n' u uo p =>
+  | create o b n' u uo p c =>
     obtain ⟨_, habs, hval, _, _, _, _, d, hrecs, hown, _, _, hexp⟩ := runCreate_ok h1
     rw [hrecs, alookup_upsert] at hch
     by_cases hk : n = n'
@@ -818,7 +915,7 @@ theorem auth_of_change {env : Env} {s : St} {tx : Tx} {n : Name}
       · simp only [hsub, if_true] at hexp
         obtain ⟨par, hpar, hpo, _⟩ := hexp
         exact .ownerAbove (parentOf n) par (isSubOf_parent (isSub_length hsub)) hpar hpo
-      · exact .registration b u uo p habs (by simpa using hsub) rfl
+      · exact .registration b u uo p c habs (by simpa using hsub) rfl
     · simp [hk] at hch
   | update o b n' a u uo =>
     obtain ⟨d, hd, hown, _, _, _, _, hrecs⟩ := runUpdate_ok h1
@@ -832,13 +929,13 @@ theorem auth_of_change {env : Env} {s : St} {tx : Tx} {n : Name}
         · exact .ownerAbove n' d (visSub_isSubOf hv) hd hown
         · cases hl : alookup n s.recs <;> simp [hl, hv] at hch
       · exact absurd rfl hch
-  | sale o n' p c =>
+  | sale o n' p cu c =>
     obtain ⟨d, hd, hown, _, _, _, _, _, _, d', hrecs, _⟩ := runSale_ok h1
     rw [hrecs, alookup_upsert] at hch
     by_cases hk : n = n'
     · subst hk; exact .ownRecord d hd hown
     · simp [hk] at hch
-  | purchase b a n' o =>
+  | purchase b a n' o c =>
     obtain ⟨d, hd, hsub, hfs, _, _, hbr⟩ := runPurchase_ok h1
     have hrecs : ∃ d', s1.recs = upsert (eraseSel (visSub s.tree n') s.recs) n' d' := by
       rcases hbr with ⟨_, _, _, _, _, _, _, _, _, hr⟩ | ⟨_, _, _, _, hr⟩
@@ -847,16 +944,16 @@ theorem auth_of_change {env : Env} {s : St} {tx : Tx} {n : Name}
     obtain ⟨d', hrecs⟩ := hrecs
     rw [hrecs, alookup_upsert] at hch
     by_cases hk : n = n'
-    · subst hk; exact .purchase b a n o d rfl (Or.inl rfl) hsub hd hfs
+    · subst hk; exact .purchase b a n o c d rfl (Or.inl rfl) hsub hd hfs
     · simp only [hk, if_false] at hch
       rw [alookup_eraseSel] at hch
       by_cases hv : visSub s.tree n' n = true
-      · exact .purchase b a n' o d rfl (Or.inr (visSub_isSubOf hv)) hsub hd hfs
+      · exact .purchase b a n' o c d rfl (Or.inr (visSub_isSubOf hv)) hsub hd hfs
       · simp [hv] at hch
-  | send f n' amt =>
+  | send f n' amt c =>
     obtain ⟨_, _, _, _, _, _, _, _, _, hrecs, _⟩ := runSend_ok h1
     rw [hrecs] at hch; exact absurd rfl hch
-  | renew o n' p =>
+  | renew o n' p c =>
     obtain ⟨d, hd, hown, _, _, _, _, _, _, _, hrecs⟩ := runRenew_ok h1
     rw [hrecs, alookup_mapSel, alookup_upsert] at hch
     by_cases hk : n = n'
@@ -886,8 +983,8 @@ theorem parentOf_of_length_two {r : Name} (h : r.length = 2) : parentOf r = r :=
     (root) name, first registration, purchase of the (root) name -/
 theorem rootAuth_of_auth {env : Env} {s : St} {tx : Tx} {n : Name} (hi : RegInv s) (ha : Auth env s tx n) :
     (∃ p, alookup (rootOf n) s.recs = some p ∧ p.owner = tx.signer) ∨
-    (alookup n s.recs = none ∧ isSub n = false ∧ ∃ b u uo p, tx = .create tx.signer b n u uo p) ∨
-    (∃ b a o d, tx = .purchase b a (rootOf n) o ∧ alookup (rootOf n) s.recs = some d ∧
+    (alookup n s.recs = none ∧ isSub n = false ∧ ∃ b u uo p c, tx = .create tx.signer b n u uo p c) ∨
+    (∃ b a o c d, tx = .purchase b a (rootOf n) o c ∧ alookup (rootOf n) s.recs = some d ∧
       (d.onSale = true ∨ d.expire < env.version)) := by
   cases ha with
   | ownRecord d hd hown =>
@@ -913,10 +1010,10 @@ theorem rootAuth_of_auth {env : Env} {s : St} {tx : Tx} {n : Name} (hi : RegInv 
       exact ⟨q, hq, hqo.trans hown⟩
     · rw [parentOf_of_length_two (by omega)]
       exact ⟨p, hr, hown⟩
-  | registration b u uo p habs hsub htx =>
+  | registration b u uo p c habs hsub htx =>
     right; left
-    exact ⟨habs, hsub, b, u, uo, p, htx⟩
-  | purchase b a r o d htx hrn hsub hr hfs =>
+    exact ⟨habs, hsub, b, u, uo, p, c, htx⟩
+  | purchase b a r o c d htx hrn hsub hr hfs =>
     right; right
     have hvr := (hi r d hr).1
     have hr2 : r.length = 2 := length_two_of_valid_not_sub hvr hsub
@@ -929,14 +1026,14 @@ theorem rootAuth_of_auth {env : Env} {s : St} {tx : Tx} {n : Name} (hi : RegInv 
         simp only [h3, if_true]
         exact parentOf_eq_of_isSubOf hs hr2
     rw [hroot]
-    exact ⟨b, a, o, d, htx, hr, hfs⟩
+    exact ⟨b, a, o, c, d, htx, hr, hfs⟩
 
 /-! ## one record per name -/
 
 theorem nodup_handler {env : Env} {s s' : St} {tx : Tx} (h : handler env s tx = .ok s')
     (hn : (akeys s.recs).Nodup) : (akeys s'.recs).Nodup := by
   cases tx with
-  | create o b n u uo p =>
+  | create o b n u uo p c =>
     obtain ⟨_, _, _, _, _, _, _, d, hrecs, _⟩ := runCreate_ok h
     rw [hrecs]; exact nodup_akeys_upsert _ _ _ hn
   | update o b n a u uo =>
@@ -946,10 +1043,10 @@ theorem nodup_handler {env : Env} {s s' : St} {tx : Tx} (h : handler env s tx = 
     split
     · rw [akeys_mapSel]; exact hn
     · exact hn
-  | sale o n p c =>
+  | sale o n p cu c =>
     obtain ⟨d, _, _, _, _, _, _, _, _, d', hrecs, _⟩ := runSale_ok h
     rw [hrecs]; exact nodup_akeys_upsert _ _ _ hn
-  | purchase b a n o =>
+  | purchase b a n o c =>
     obtain ⟨d, _, _, _, _, _, hbr⟩ := runPurchase_ok h
     have hrecs : ∃ d', s'.recs = upsert (eraseSel (visSub s.tree n) s.recs) n d' := by
       rcases hbr with ⟨_, _, _, _, _, _, _, _, _, hr⟩ | ⟨_, _, _, _, hr⟩
@@ -960,10 +1057,10 @@ theorem nodup_handler {env : Env} {s s' : St} {tx : Tx} (h : handler env s tx = 
     apply nodup_akeys_upsert
     rw [akeys_eraseSel]
     exact hn.sublist List.filter_sublist
-  | send f n a =>
+  | send f n a c =>
     obtain ⟨_, _, _, _, _, _, _, _, _, hrecs, _⟩ := runSend_ok h
     rw [hrecs]; exact hn
-  | renew o n p =>
+  | renew o n p c =>
     obtain ⟨d, _, _, _, _, _, _, _, _, _, hrecs⟩ := runRenew_ok h
     rw [hrecs, akeys_mapSel]; exact nodup_akeys_upsert _ _ _ hn
   | deleteSub o n =>
@@ -974,7 +1071,7 @@ theorem nodup_handler {env : Env} {s s' : St} {tx : Tx} (h : handler env s tx = 
 
 theorem nodup_step {env : Env} {s : St} {tx : Tx} (hn : (akeys s.recs).Nodup) :
     (akeys (step env s tx).2.recs).Nodup := by
-  rcases step_cases env s tx with h | ⟨s1, h1, h2⟩
+  rcases step_cases env s tx with h | ⟨_, s1, h1, h2⟩
   · rw [h]; exact hn
   · obtain ⟨_, _, _, _, hfr, _⟩ := feeStep_ok h2
     rw [hfr]; exact nodup_handler h1 hn
